@@ -10,7 +10,7 @@ def regen(root):
     spec = importlib.util.spec_from_file_location("scan_order_sites", p)
     mod = importlib.util.module_from_spec(spec)
     spec.loader.exec_module(mod)
-    mod.regen(root)
+    mod.regen(root, repo=os.environ.get("VERIF_REPO", "/repo"))
 
 
 # configuration of ./check for this property
